@@ -20,8 +20,12 @@ class StepModel:
         self.h1 = h1
         self.L = np.asarray(chol, dtype=float).reshape(-1, norb, norb)
         self.G = self.L.shape[0]
-        rdm1 = np.asarray(rdm1, dtype=float)
-        self.l = np.array([np.sum(Lg * (rdm1[0] + rdm1[1])) for Lg in self.L])  # mean-field values tr(L rdm1)
+        # a density matrix is Hermitian, not necessarily real: tr(L rdm1) is real for symmetric real L
+        rdm1 = np.asarray(rdm1)
+        lc = np.array([np.sum(Lg * (rdm1[0] + rdm1[1])) for Lg in self.L])
+        if np.max(np.abs(np.imag(lc)), initial=0.0) > 1e-10:
+            raise ValueError("rdm1 is not Hermitian")
+        self.l = np.real(lc).astype(float)  # mean-field values tr(L rdm1)
         self.dt = float(dt)
         self.n_exp = int(n_exp_terms)
         self.psi = np.asarray(psi)
